@@ -248,6 +248,42 @@ pub fn minimise(env: &Env, start: MiniWorld, item: Option<Item>, d0: Divergence,
         attempt!("reset entropy seed", c);
     }
 
+    // 2a. history in chunks (ddmin style): halves, quarters, ... of the events that are not
+    //     thread set-up and not an expansion of the target input -- long histories (marathons)
+    //     shrink in O(log n) judgements instead of one per event
+    for side in 0..2 {
+        let mut chunk = {
+            let n = if side == 0 { cur.bad.events.len() } else { cur.reference.events.len() };
+            n / 2
+        };
+        while chunk >= 2 && j.left() {
+            let mut start = 0;
+            loop {
+                let evs = if side == 0 { &cur.bad.events } else { &cur.reference.events };
+                if start >= evs.len() || !j.left() {
+                    break;
+                }
+                let end = (start + chunk).min(evs.len());
+                let mut c = cur.clone();
+                let keep = |e: &Event| matches!(e, Event::Spawn { .. } | Event::Order { .. }) || matches!(e, Event::Expand { input, .. } if *input == target);
+                let ev: Vec<Event> = evs.iter().enumerate().filter(|(i, e)| *i < start || *i >= end || keep(e)).map(|(_, e)| e.clone()).collect();
+                if ev.len() == evs.len() {
+                    start = end;
+                    continue;
+                }
+                if side == 0 {
+                    c.bad.events = ev;
+                } else {
+                    c.reference.events = ev;
+                }
+                if !attempt!(format!("drop a chunk of {} {} events at #{}", chunk, if side == 0 { "faulty-host" } else { "reference-host" }, start), c) {
+                    start = end;
+                }
+            }
+            chunk /= 2;
+        }
+    }
+
     // 2. history, event by event (from the end)
     let mut progress = true;
     while progress && j.left() {
